@@ -3,6 +3,19 @@
 // Contracts for package fields, checked by /verif (govc). Comment-only.
 package fields
 
+import (
+	"errors"
+	"io"
+)
+
+var _ = errors.Is
+var _ io.Reader
+
+// ghostIOFailure: an error of the underlying file (anything but the two end-of-data errors). The
+// io model has no such failures, so the readers never produce one there; callers may assume what
+// such errors are NOT (e.g. not the key-value layer's "not found").
+var ghostIOFailure func(err error) bool
+
 // The Must* writers panic only when the underlying io.Writer fails. Their
 // callers under contract write to in-memory buffers (wal.bufferSegment,
 // sst.entryBuffer) whose Write never returns an error: assumed, listed.
@@ -81,6 +94,7 @@ func forall(lo, hi int, f func(int) bool) bool {
 //@ func ReadUint64
 //@   property C17
 //@   modifies r.pos
+//@   ensures result1 == nil || result1 == io.EOF || result1 == io.ErrUnexpectedEOF || ghostIOFailure(result1)
 //@   ensures (result1 == nil) == (len(r.data)-old(r.pos) >= 8)
 //@   ensures result1 == nil ==> r.pos == old(r.pos)+8 &&
 //@           result0 == uint64(r.data[old(r.pos)]) + uint64(r.data[old(r.pos)+1])*256 + uint64(r.data[old(r.pos)+2])*65536 + uint64(r.data[old(r.pos)+3])*16777216 +
@@ -128,6 +142,8 @@ func forall(lo, hi int, f func(int) bool) bool {
 //@ func ReadVarBytes
 //@   property C17
 //@   modifies r.pos
+//@   ensures errors.Is(result1, io.EOF) ==> r.pos == len(r.data)
+//@   ensures result1 == nil || result1 == io.EOF || result1 == io.ErrUnexpectedEOF || ghostIOFailure(result1)
 //@   ensures result1 == nil ==> len(r.data)-old(r.pos) >= 4 &&
 //@           len(result0) == int(r.data[old(r.pos)]) + int(r.data[old(r.pos)+1])*256 + int(r.data[old(r.pos)+2])*65536 + int(r.data[old(r.pos)+3])*16777216 &&
 //@           r.pos == old(r.pos)+4+len(result0) && r.pos <= len(r.data) &&
